@@ -44,9 +44,9 @@ fn strip_faults(t: &Trace) -> Trace {
                 };
                 events.push(Event::Collect { a: *a, debt: *debt, call: *call, then })
             }
-            Event::NewArena { a, root_set, ops, p, fail, bare } => {
+            Event::NewArena { a, root_set, ops, p, fail, bare, static_root } => {
                 let fail = if *fail == CtorFail::TryNewErr { CtorFail::TryNewOk } else { *fail };
-                events.push(Event::NewArena { a: *a, root_set: *root_set, ops: ops.iter().filter(|o| !matches!(o, Op::Panic)).cloned().collect(), p: *p, fail, bare: *bare })
+                events.push(Event::NewArena { a: *a, root_set: *root_set, ops: ops.iter().filter(|o| !matches!(o, Op::Panic)).cloned().collect(), p: *p, fail, bare: *bare, static_root: *static_root })
             }
             e => events.push(e.clone()),
         }
